@@ -731,6 +731,20 @@ int ext4_unreg(struct rthr *th, int id, int keep)
 	return 0;
 }
 
+/* iv_fd_pump_pump() called by the application itself (a kick after set-up, a timer, a spurious wake-up)
+ * rather than from a readiness callback: legal at any time in the owner thread */
+int ext4_pump_kick(struct rthr *th, int id)
+{
+	struct robj *o = &RO[id];
+	struct pumpx *px = PX(o);
+	if (th == NULL || (int)(th - RT) != PL->obj[id].owner || !th->inited || !o->registered || px == NULL || px->destroyed ||
+	    px->done || px->errored)
+		return 0;
+	PROBE[PR_PUMP_KICK]++;
+	pump_event(o->ck);
+	return 1;
+}
+
 int ext4_op(struct rthr *th, const struct pop *op)
 {
 	(void)th;
